@@ -138,6 +138,7 @@ type req struct {
 	VIdx  int    `json:"vi"` // votes only; not part of the sign bytes
 	VSize int    `json:"vs"`
 	Fault string `json:"f,omitempty"`
+	Rekey bool   `json:"rk,omitempty"` // before the request the validator's key is handed to the signer again (UpdatePrikey with the SAME key)
 }
 
 func (q req) hrs() hrs { return hrs{q.H, q.R, q.Kind} }
@@ -417,6 +418,11 @@ func (r *run) recordRelease(op int, obj signable, viaPanic bool) {
 
 func (r *run) step(i int, q req) outcome {
 	var o outcome
+	if q.Rekey {
+		// a key refresh with the key the signer already holds (PrivValidator.UpdatePrikey): it is the same validator key
+		// afterwards, so everything it has signed still binds it
+		r.pv.UpdatePrikey(r.pv.GetPrikey())
+	}
 	obj := q.build(r.pv.GetAddress())
 	r.arm(q.Fault)
 	var err error
@@ -776,6 +782,10 @@ func genScenario(t *rapid.T, maxOps int, withFaults bool) scenario {
 		q := genReq(t, g, sc.Ops, top, topIdx)
 		if withFaults {
 			q.Fault = rapid.SampledFrom([]string{fNone, fNone, fNone, fNone, fNone, fNone, fNone, fReloadAfter, fDiscard, fDiscard, fCrashOpen, fCrashRename}).Draw(t, "fault")
+			q.Rekey = rapid.IntRange(0, 5).Draw(t, "rekey") == 0
+			if q.Rekey {
+				vstat.Label("key_handed_over_again_before_request")
+			}
 		}
 		if i == 0 || q.hrs().cmp(top) > 0 {
 			top, topIdx = q.hrs(), i
